@@ -1,5 +1,6 @@
 import GinjaxVerif.Lemmas.C07Conv
 import GinjaxVerif.Lemmas.C07Layers
+import Mathlib.Data.List.Forall2
 
 /-!
 # C07 — structural induction over `Net`: every well-formed network maps related inputs to related
@@ -310,5 +311,51 @@ theorem eval_rel [Field R] [LinearOrder R] (g : SP d) (F : Fns R d) (hS : ConjEq
           rw [e3]
           simp only [Option.bind_some]
           exact (concatMI_rel g x3 x3' x x' c1 hx r3 hr y h).1
+
+/-! ### extensional equality of multi-images -/
+
+/-- same keys in the same order, same extents and flags, and blockwise `Blk.Equiv` with the order of
+the key -/
+def MI.Equiv (a b : MI R d) : Prop :=
+  a.dims = b.dims ∧ a.torus = b.torus ∧
+    List.Forall₂ (fun e' e => e'.1 = e.1 ∧ (toBlk e.1 e'.2).Equiv (toBlk e.1 e.2)) a.blocks b.blocks
+
+theorem rel_iff_equiv_act [CommRing R] (g : SP d) (y' y : MI R d) :
+    Rel g y' y ↔ MI.Equiv y' (act g y) := by
+  constructor
+  · rintro ⟨h1, h2, h3⟩
+    refine ⟨h1, h2, ?_⟩
+    show List.Forall₂ _ y'.blocks (List.map _ y.blocks)
+    rw [List.forall₂_map_right_iff]
+    exact h3
+  · rintro ⟨h1, h2, h3⟩
+    refine ⟨h1, h2, ?_⟩
+    have h3' : List.Forall₂ _ y'.blocks (List.map _ y.blocks) := h3
+    rw [List.forall₂_map_right_iff] at h3'
+    exact h3'
+
+theorem rel_iff_equiv_tgeAct [CommRing R] (g : SP d) (y' y : MI R d) :
+    Rel g y' y ↔ MI.Equiv y' (tgeAct g.mat y) := by
+  have key : ∀ (e' e : Ty × Block R d),
+      (e'.1 = e.1 ∧ BRel g e.1 e'.2 e.2) ↔
+      (e'.1 = e.1 ∧ (toBlk e.1 e'.2).Equiv (toBlk e.1 (tgeBlock g.mat e.1 e.2))) := by
+    intro e' e
+    have hb : toBlk e.1 (tgeBlock g.mat e.1 e.2) = tgeBlk g.mat e.1.2 (toBlk e.1 e.2) := rfl
+    rw [hb]
+    constructor
+    · rintro ⟨hk, h⟩; exact ⟨hk, h.trans (tgeBlk_equiv_pfBlk g e.1.2 _).symm⟩
+    · rintro ⟨hk, h⟩; exact ⟨hk, h.trans (tgeBlk_equiv_pfBlk g e.1.2 _)⟩
+  constructor
+  · rintro ⟨h1, h2, h3⟩
+    refine ⟨by rw [h1]; exact (rotDims_mat' g y.dims).symm,
+      by rw [h2]; exact (transport_mat' g y.torus).symm, ?_⟩
+    show List.Forall₂ _ y'.blocks (List.map _ y.blocks)
+    rw [List.forall₂_map_right_iff]
+    exact List.Forall₂.imp (fun e' e h => (key e' e).1 h) h3
+  · rintro ⟨h1, h2, h3⟩
+    refine ⟨h1.trans (rotDims_mat' g y.dims), h2.trans (transport_mat' g y.torus), ?_⟩
+    have h3' : List.Forall₂ _ y'.blocks (List.map _ y.blocks) := h3
+    rw [List.forall₂_map_right_iff] at h3'
+    exact List.Forall₂.imp (fun e' e h => (key e' e).2 h) h3'
 
 end GinjaxVerif.C07
